@@ -133,7 +133,9 @@ type doneEv struct {
 	Errs       int            `json:"err_results"`
 	Panics     int            `json:"panic_results"`
 	WallMs     int64          `json:"wall_ms"`
-	SimS       float64        `json:"sim_s,omitempty"` // simulated time covered by the concurrent phase (trees that read the clock only)
+	SimS       float64        `json:"sim_s,omitempty"`
+	OpNames    []string       `json:"op_names,omitempty"`
+	OpHashes   []string       `json:"op_hashes,omitempty"` // simulated time covered by the concurrent phase (trees that read the clock only)
 }
 
 type violEv struct {
@@ -176,7 +178,11 @@ type ReplayFile struct {
 	// O7 (cross-process canary): two worker batches whose canary digests must agree and do not
 	CanaryBatches []CanaryBatch `json:"canary_batches,omitempty"`
 	CanaryKeys    []string      `json:"canary_keys,omitempty"`
-	Note          string        `json:"note,omitempty"`
+	// O8 (history-free twin run): run AloneRun of batch AloneBatch executed after the runs before it, and executed
+	// alone in a fresh worker process, must give the same results
+	AloneBatch *CanaryBatch `json:"alone_batch,omitempty"`
+	AloneRun   int          `json:"alone_run,omitempty"`
+	Note       string       `json:"note,omitempty"`
 }
 
 // Names of operations (index = Op.K) and of object kinds (index = ObjSpec.Kind).
@@ -192,9 +198,10 @@ var kindNames = [...]string{"SenderReport", "ReceiverReport", "SourceDescription
 
 // CanaryBatch identifies one worker batch of an O7 replay file.
 type CanaryBatch struct {
-	Seed   uint64 `json:"seed"`
-	Runs   int    `json:"runs"`
-	Race   bool   `json:"race"`
-	Tier   string `json:"tier"`
-	NoCold bool   `json:"nocold,omitempty"`
+	Seed    uint64 `json:"seed"`
+	Runs    int    `json:"runs"`
+	Race    bool   `json:"race"`
+	Tier    string `json:"tier"`
+	NoCold  bool   `json:"nocold,omitempty"`
+	ForceOp bool   `json:"forceop,omitempty"`
 }
